@@ -206,7 +206,7 @@ func Version(version string) OptionFn {
 // registered to all incoming connections.
 func ExtendTypes(fn func(*pgtype.Map)) OptionFn {
 	return func(srv *Server) error {
-		fn(srv.types)
+		srv.types = append(srv.types, fn)
 		return nil
 	}
 }
